@@ -52,7 +52,7 @@ def required_cells(tier):
         cells += [f"modelled:{f}:joined", f"modelled:{f}:separate"]
     cells += ["prefix:-g*", "prefix:-c*", "prefix:-o*", "prefix:-O*", "prefix:-i*", "prefix:-I*", "prefix:-D*",
               "unmodelled-with-value", "value:space", "value:equals", "value:quote", "value:leading-dash", "command-string",
-              "database-file", "class:E", "class:R", "each-catalogue-flag-next-to-modelled"]
+              "database-file", "database-multi-entry", "class:E", "class:R", "each-catalogue-flag-next-to-modelled"]
     return cells
 
 
@@ -429,6 +429,62 @@ def database_form(ctx, obs, rng, work):
                          cells=["database-file"], cls="database")
 
 
+def multi_entry_databases(ctx, rng, work):
+    """Several entries in ONE database (arguments and command forms mixed, including pairs whose printed text coincides
+    although their argument vectors differ): every entry must get exactly its own options."""
+    from codebasin import config
+    acc = ctx.acc
+    os.makedirs(os.path.join(work, "src"), exist_ok=True)
+    for nm in ("a.c", "b.c", "c.c"):
+        with open(os.path.join(work, "src", nm), "w") as f:
+            f.write("int x;\n")
+    quoted = ['-DGREETING="hi"', "-DMSG='a b'", '-DS="x y"', "-DPLAIN=1", '-DQ=\\"esc\\"']
+    n = 60 if ctx.quick else 1500
+    for i in range(n):
+        entries, wants = [], []
+        k = rng.randint(2, 4)
+        base_argv = ["gcc", rng.choice(quoted), "-O2", "-I", "inc"] + rng.choice([[], ["-DX=1"], ["-include", "pre.h"]])
+        for j in range(k):
+            src = "src/" + rng.choice(["a.c", "b.c", "c.c"])
+            mode = rng.choice(["same-text-arguments", "same-text-command", "fresh"])
+            if mode == "fresh":
+                argv = ["gcc"] + [rng.choice(quoted), "-DJ=%d" % j] + ["-c", src]
+                form = rng.choice(["arguments", "command"])
+                text = shlex.join(argv)
+            else:
+                argv = base_argv + ["-c", src]
+                form = "arguments" if mode == "same-text-arguments" else "command"
+                text = " ".join(argv)          # the printed text of the arguments form, used verbatim as command
+            e = {"file": src, "directory": work}
+            if form == "arguments":
+                e["arguments"] = argv
+                real = argv
+            else:
+                e["command"] = text
+                real = sh_split(text)
+                acc.hook("H-sh-split")
+                if real is None:
+                    real = None
+            entries.append(e)
+            wants.append(real)
+        if not ctx.mine(i) or any(w is None for w in wants):
+            continue
+        db = os.path.join(work, "multi.json")
+        with open(db, "w") as f:
+            json.dump(entries, f)
+        try:
+            es = [x for x in config.load_database(db, work) if x["pass_name"] == "default"]
+            got = [(x["defines"], x["include_files"]) for x in es]
+        except Exception as ex:
+            got = f"{type(ex).__name__}: {ex}"
+        want = [(argmodel.scan(w[1:])[0], argmodel.scan(w[1:])[2]) for w in wants]
+        if got == want:
+            acc.held(cells=["database-multi-entry"], cls="database", nontrivial=entries)
+        else:
+            acc.violated({"input": {"entries": entries}, "witness": {"entries": entries, "expected": want, "observed": got}},
+                         cells=["database-multi-entry"], cls="database")
+
+
 def run_shard(ctx):
     b = bounds(ctx.tier)
     obs = Observer()
@@ -478,6 +534,7 @@ def run_shard(ctx):
             command_form(ctx, obs, argv, crng)
     gcc_validate(ctx, ctx.rng("gccv"), os.path.join(ctx.scratch, "gccv"))
     database_form(ctx, obs, ctx.rng("db"), os.path.join(ctx.scratch, "dbw"))
+    multi_entry_databases(ctx, ctx.rng("multidb"), os.path.join(ctx.scratch, "dbm"))
 
 
 def replay(record, ctx):
